@@ -15,6 +15,8 @@ import (
 	"encoding/json"
 	"errors"
 	"fmt"
+	"log"
+	logslog "log/slog"
 	"os"
 	"os/exec"
 	"path/filepath"
@@ -81,6 +83,8 @@ type c08env struct {
 	sortedG gattr
 	long    string // a value that makes the record longer than the initial buffer of a print context
 	err     error
+	std     []*log.Logger     // a std log bridge per logger
+	sl      []*logslog.Logger // a log/slog logger on the adapter per logger
 }
 
 func c08Setup(g *rng, nLoggers int) *c08env {
@@ -129,7 +133,10 @@ func c08Setup(g *rng, nLoggers int) *c08env {
 			l.SetAttrs(toAttrsShared(la, e)...)
 		}
 		e.loggers, e.recs, e.formats, e.names, e.lattrs = append(e.loggers, l), append(e.recs, rec), append(e.formats, f), append(e.names, name), append(e.lattrs, la)
+		e.std = append(e.std, slog.NewLogLogger(l, slog.InfoLevel))
+		e.sl = append(e.sl, logslog.New(slog.NewSlogHandler(l, &slog.HandlerOptions{NoColor: f != "c", JSON: f == "j", NoSource: true, Level: slog.DebugLevel})))
 	}
+	slog.SetFlags((slog.LstdFlags &^ slog.Lcaller) | slog.LnoInterrupt)
 	return e
 }
 
@@ -163,6 +170,9 @@ func (e *c08env) attrsOf(c c08call) []gattr {
 		as = append(as, e.sortedG)
 	case 5:
 		as = append(as, gattr{key: "blob", val: gval{kind: "string", goVal: e.long, tok: "S:" + hxs(e.long), text: e.long}}, e.sortedG)
+	case 6:
+		// a group that has slots but no member (sorted last): nothing of it may be left behind for the next record
+		as = append(as, gattr{key: "zz", isGroup: true, val: gval{kind: "group", items: []gattr{{nilAttr: true}}}})
 	}
 	return as
 }
@@ -193,6 +203,10 @@ func (e *c08env) issue(c c08call) (panicked string) {
 		l.Println()
 	case 6:
 		l.Logit(context.Background(), slog.Level(-3), c.msg, args...) // a severity nobody registered: its tag is derived per record
+	case 7:
+		e.std[c.logger].Print(c.msg) // the std log bridge: a record without attributes of its own
+	case 8:
+		e.sl[c.logger].Info(c.msg) // log/slog on the adapter, no attributes
 	}
 	return
 }
@@ -220,7 +234,7 @@ func c08Stress(seed uint64, tier string, o c08out) {
 		progs := make([][]c08call, G)
 		for gi := range progs {
 			for i := 0; i < N; i++ {
-				c := c08call{logger: g.intn(nLoggers), verb: []int{0, 1, 2, 3, 4, 6, 6}[g.intn(7)], msg: c08Msgs[g.intn(len(c08Msgs))], shape: g.intn(6), id: fmt.Sprintf("g%d-c%d", gi, i)}
+				c := c08call{logger: g.intn(nLoggers), verb: []int{0, 1, 2, 3, 4, 6, 6, 7, 8}[g.intn(9)], msg: c08Msgs[g.intn(len(c08Msgs))], shape: g.intn(7), id: fmt.Sprintf("g%d-c%d", gi, i)}
 				if c.msg != "" || c.verb != 4 {
 					c.msg = fmt.Sprintf("call %s. %s", c.id, c.msg)
 				}
@@ -275,7 +289,7 @@ func c08Stress(seed uint64, tier string, o c08out) {
 				}
 				want[c.logger][w[0]]++
 				owner[c.logger][w[0]] = c.id
-				if modelLines < 150 && c.verb != 5 {
+				if modelLines < 150 && c.verb != 5 && c.verb < 7 {
 					modelLines++
 					msg, attrs := c.msg, e.attrsOf(c)
 					line := fmt.Sprintf("C02 %s 5 %d 1 %s %s %s 3 36 1/1/- 0 x LA %s AR %s", e.formats[c.logger], c08Sev[c.verb], hxs("@"), hxs(e.names[c.logger]), hxs(msg),
